@@ -73,6 +73,9 @@ func c12Scenarios(r *hx.R, tier string) []c12Scenario {
 		out = append(out, c12Scenario{Name: fmt.Sprintf("%s-%s-%d", mode, profile, seed), Mode: mode, Profile: profile, Seed: seed, DurMs: durMs, Workers: workers})
 	}
 	if tier == "thorough" {
+		for i := 0; i < 30; i++ {
+			add("first", "default-cache", 300, 4+r.Intn(13))
+		}
 		for i := 0; i < 4; i++ {
 			add("soak", "mixed", 15000, 6+r.Intn(4))
 			add("soak", "reconf", 15000, 5+r.Intn(4))
@@ -83,6 +86,9 @@ func c12Scenarios(r *hx.R, tier string) []c12Scenario {
 			add("snap", "auto", 20000, 4)
 		}
 	} else {
+		for i := 0; i < 5; i++ {
+			add("first", "default-cache", 300, 8+r.Intn(9))
+		}
 		add("soak", "mixed", 4000, 6+r.Intn(3))
 		add("soak", "reconf", 4000, 5+r.Intn(3))
 		add("soak", "dirs", 4000, 5+r.Intn(3))
@@ -102,7 +108,8 @@ func genC12(r *hx.R, tier string, scratch string) (*hx.Suite, error) {
 		Rule: "one case per child process: N goroutines issue the public cache operations (ListDevices, GetDevice, InjectDevices, Refresh, " +
 			"Configure(WithSpecDirs/WithAutoRefresh), WriteSpec, RemoveSpec, GetErrors, GetSpecErrors, GetSpecDirErrors, GetSpecDirectories, GetVendorSpecs, " +
 			"ListVendors, ListClasses, SetSpecValidator, the package-level default-cache functions) on one cache under randomised yields while files change " +
-			"underneath and the watcher refreshes, built with -race (a report ends the child with exit 66, a 20 s stall of all operations with exit 67); " +
+			"underneath and the watcher refreshes; children whose 4-16 goroutines, released together, make the first use of the package-level default cache; " +
+			"all built with -race (a report ends the child with exit 66, a 20 s stall of all operations with exit 67); " +
 			"plus the snapshot scenario: one Spec file flips by rename(2) between contents A and B while readers compare every ListDevices / InjectDevices / " +
 			"GetVendorSpecs result with the two admissible results (one case per distinct observed result); plus the list of exported *Cache methods " +
 			"(reflection) which must all be entry points of the regenerated lock model.",
@@ -362,6 +369,8 @@ func c12Child(args []string) int {
 		switch *mode {
 		case "snap":
 			res, code = c12Snap(st, *profile, *seed, time.Duration(*dur)*time.Millisecond, *workers, *stall)
+		case "first":
+			res, code = c12First(st, *seed, *workers, *stall)
 		default:
 			res, code = c12Soak(st, *profile, *seed, time.Duration(*dur)*time.Millisecond, *workers, *stall)
 		}
@@ -409,6 +418,50 @@ func (st *c12State) guarded(op string, f func()) {
 		os.Exit(c12ExitCrash)
 	}
 	st.count(op)
+}
+
+// c12First: the first use of the package-level default cache, by all workers at once: in a new process the workers wait
+// behind a barrier and then each calls package-level functions (the default cache does not exist before the first of them).
+func c12First(st *c12State, seed int64, workers int, stall int) (c12Result, int) {
+	dir := filepath.Join(st.root, "specs")
+	_ = os.MkdirAll(dir, 0o755)
+	var tmpN atomic.Int64
+	stage := filepath.Join(st.root, "stage")
+	_ = os.MkdirAll(stage, 0o755)
+	_ = c12Put(stage, filepath.Join(dir, "base.json"), c12Spec("vendor0.com", "class", "base", []string{"dev0", "dev1"}, ""), &tmpN)
+	start := make(chan struct{})
+	var wg sync.WaitGroup
+	for w := 0; w < workers; w++ {
+		wg.Add(1)
+		go func(w int) {
+			defer wg.Done()
+			r := rand.New(rand.NewSource(seed + int64(w)))
+			<-start
+			for i := 0; i < 4; i++ {
+				switch (w + i + int(seed%5)) % 5 {
+				case 0:
+					st.guarded("cdi.GetDefaultCache", func() { _ = cdi.GetDefaultCache().ListDevices() })
+				case 1:
+					st.guarded("cdi.Configure", func() { _ = cdi.Configure(cdi.WithSpecDirs(dir), cdi.WithAutoRefresh(w%2 == 0)) })
+				case 2:
+					st.guarded("cdi.Refresh", func() { _ = cdi.Refresh() })
+				case 3:
+					st.guarded("cdi.InjectDevices", func() { _, _ = cdi.InjectDevices(&oci.Spec{}, "vendor0.com/class=dev0") })
+				default:
+					st.guarded("cdi.GetErrors", func() { _ = cdi.GetErrors() })
+				}
+				c12Yield(r)
+			}
+		}(w)
+	}
+	time.Sleep(20 * time.Millisecond) // every worker is parked at the barrier
+	close(start)
+	if !c12Wait(&wg, stall) {
+		fmt.Fprintln(os.Stderr, "C12 WATCHDOG: a worker did not return from a package-level function")
+		return c12Result{Note: "hung"}, c12ExitStall
+	}
+	_ = cdi.Configure(cdi.WithAutoRefresh(false))
+	return c12Result{}, 0
 }
 
 func c12Soak(st *c12State, profile string, seed int64, dur time.Duration, workers int, stall int) (c12Result, int) {
